@@ -137,6 +137,9 @@ def classify(res, fns, unit_name='unit'):
 def match_fn_time(times, fn, unit='unit'):
     parts = fn['name'].split('::')
     parts[-1] = fn.get('out_name', parts[-1])
+    if not fn['name'].startswith('<'):
+        # `Admin<'a>::set` -> Verus names it `Admin::set`
+        parts = [re.sub(r'<.*>$', '', x) for x in parts]
     want = f'{unit}::{fn["mod"]}::' + '::'.join(parts)
     if want in times:
         return times[want]
